@@ -1,34 +1,63 @@
 #!/bin/sh
-# usage: tools/seedmatrix.sh [seed-id...]
-# Runs every archived seeded change against its property's quick check, the way
-# the brief prescribes (git -C /repo apply; run; git -C /repo checkout -- .),
-# and writes seeded/RESULTS.md. /repo must be clean and nothing else may be
-# using it meanwhile.
+# usage: tools/seedmatrix.sh [-j N] [seed-id...]
+# Runs every archived seeded change against its property's quick check and
+# writes seeded/RESULTS.md.
+#   default (-j 1): the way the brief prescribes - git -C /repo apply; run the
+#     check; git -C /repo checkout -- .  (/repo must be clean and unused meanwhile)
+#   -j N (N > 1): N seeds at a time, each in its own scratch worktree of /repo's
+#     HEAD (VERIF_REPO), removed afterwards; /repo itself is not touched. The
+#     check, the harnesses and the engine are the same.
 cd "$(dirname "$0")/.." || exit 2
-git -C /repo diff --quiet || { echo "/repo has uncommitted changes"; exit 2; }
+par=1
+if [ "$1" = "-j" ]; then par="$2"; shift 2; fi
 ids="$*"
 [ -n "$ids" ] || ids=$(ls seeded | grep -v '^_' | grep -v RESULTS)
-out=seeded/RESULTS.md
-{
-echo "Result of \`tools/seedmatrix.sh\` (each seed applied to /repo, the property's quick check run, the change undone):"
-echo
-echo "| seed | property | verdict of the quick check | first violated assertion |"
-echo "|---|---|---|---|"
-} > $out.tmp
-for id in $ids; do
-  [ -f seeded/$id/patch.diff ] || continue
+mkdir -p .work/matrix
+one() {
+  id="$1"
+  [ -f seeded/$id/patch.diff ] || return
   prop=$(python3 -c "import json;print(json.load(open('seeded/$id/meta.json'))['property'])")
-  git -C /repo apply "$(readlink -f seeded/$id/patch.diff)" || { echo "| $id | $prop | patch does not apply | |" >> $out.tmp; continue; }
-  ./bin/gosmx check -prop "$prop" -tier quick -no-evidence > .work/matrix_$id.out 2>&1
-  rc=$?
-  git -C /repo checkout -- .
-  v=$(grep -m1 '^VIOLATION' .work/matrix_$id.out | sed 's/.*# //; s/ \[.*//' | cut -c1-150)
+  if [ "$par" = 1 ]; then
+    git -C /repo apply "$(readlink -f seeded/$id/patch.diff)" || { echo "$id|$prop|patch does not apply|" > .work/matrix/$id.res; return; }
+    ./bin/gosmx check -prop "$prop" -tier quick -no-evidence > .work/matrix/$id.out 2>&1; rc=$?
+    git -C /repo checkout -- .
+  else
+    wt=/tmp/wt_mx_$id
+    git -C /repo worktree add --detach -q "$wt" HEAD || return
+    git -C "$wt" apply "$(readlink -f seeded/$id/patch.diff)" || { echo "$id|$prop|patch does not apply|" > .work/matrix/$id.res; git -C /repo worktree remove --force "$wt"; return; }
+    VERIF_REPO="$wt" ./bin/gosmx check -prop "$prop" -tier quick -no-evidence -workers $((16 / par + 2)) > .work/matrix/$id.out 2>&1; rc=$?
+    git -C /repo worktree remove --force "$wt"
+  fi
+  v=$(grep -m1 '^VIOLATION' .work/matrix/$id.out | sed 's/.*# //; s/ \[.*//' | sed "s#/tmp/wt_mx_$id/##g" | cut -c1-160)
   case $rc in
     1) verdict="VIOLATION (exit 1)";;
     0) verdict="**missed** (exit 0)";;
     *) verdict="inconclusive (exit $rc)";;
   esac
-  echo "| $id | $prop | $verdict | $v |" >> $out.tmp
+  echo "$id|$prop|$verdict|$v" > .work/matrix/$id.res
   echo "$id $prop rc=$rc $v"
+}
+if [ "$par" = 1 ]; then
+  git -C /repo diff --quiet || { echo "/repo has uncommitted changes"; exit 2; }
+  for id in $ids; do one $id; done
+else
+  n=0
+  for id in $ids; do
+    one $id &
+    n=$((n+1))
+    if [ $((n % par)) = 0 ]; then wait; fi
+  done
+  wait
+fi
+out=seeded/RESULTS.md
+{
+echo "Result of \`tools/seedmatrix.sh\` (each seed applied, the property's quick check run, the change undone; \`-j N\` runs use scratch worktrees of /repo's HEAD instead of /repo itself):"
+echo
+echo "| seed | property | verdict of the quick check | first violated assertion |"
+echo "|---|---|---|---|"
+for f in $(ls .work/matrix/*.res | sort); do
+  IFS='|' read -r id prop verdict v < $f
+  echo "| $id | $prop | $verdict | $v |"
 done
-mv $out.tmp $out
+} > $out
+grep -c "VIOLATION" $out
